@@ -162,6 +162,15 @@ pub fn encodings_of<I: InnerTy>(v: &I) -> Vec<Dv> {
                 out.push(Dv::Map(vec![(Dv::S("x".into()), Dv::I(x as i128, 64)), (Dv::S("y".into()), Dv::I(y as i128, 64))]));
                 out.push(Dv::Map(vec![(Dv::S("x".into()), Dv::I(x as i128, 64))]));
                 out.push(Dv::Point(x + 70_000, y));
+            } else if I::NAME == "Vec<u8>" {
+                let a: Vec<u8> = j.as_array().map(|a| a.iter().filter_map(|x| x.as_u64()).map(|x| x as u8).collect()).unwrap_or_default();
+                out.push(Dv::Seq(a.iter().map(|x| Dv::U(*x as u128, 8)).collect()));
+                // the other representation serde has for the same data, and its neighbours
+                out.push(Dv::Bytes(a.clone()));
+                out.push(Dv::S(String::from_utf8_lossy(&a).to_string()));
+                out.push(Dv::Seq(a.iter().map(|x| Dv::I(*x as i128, 64)).collect()));
+                out.push(Dv::Seq(a.iter().map(|x| Dv::U(*x as u128 + 256, 16)).collect()));
+                out.push(Dv::Seq(a.iter().map(|x| Dv::F64(*x as f64)).collect()));
             } else if I::NAME == "Cow<[f32]>" {
                 let a: Vec<f32> = j
                     .get("bits")
